@@ -1,0 +1,28 @@
+//go:build verif
+
+package rpc
+
+import (
+	"net/http"
+	"sync"
+)
+
+// Verification hook (build tag verif): keeps the HTTP handler that JSONRPCServer.Listen builds, so that a
+// check can serve requests with arbitrary RemoteAddr values through net/http/httptest.
+var (
+	verifHandlerMu sync.Mutex
+	verifHandlers  = map[*JSONRPCServer]http.Handler{}
+)
+
+func verifCaptureHandler(j *JSONRPCServer, h http.Handler) {
+	verifHandlerMu.Lock()
+	verifHandlers[j] = h
+	verifHandlerMu.Unlock()
+}
+
+// VerifHandler returns the handler captured for j by the last Listen call (nil if none).
+func VerifHandler(j *JSONRPCServer) http.Handler {
+	verifHandlerMu.Lock()
+	defer verifHandlerMu.Unlock()
+	return verifHandlers[j]
+}
